@@ -1,5 +1,5 @@
-Require Import Base OasisInt OasisSpec.
+Require Import Base OasisInt OasisSpec OasisDetect.
 Require Import Extraction ExtrOcamlBasic.
 Extraction Blacklist List String Int.
 Extraction "../ocaml/extracted/c04.ml" spec_oas_decode spec_oas_encode rep_offsets elem_points ctrap_w ctrap_h
-  spec_ctrap_table lfpt_eval mkChoice.
+  spec_ctrap_table lfpt_eval mkChoice is_rectangle is_trapezoid.
